@@ -269,7 +269,7 @@ class Exec(ExecExpr):
                 c = SP.CONTRACTS[vq]
                 break
         self.used_contracts.add(c.qual)
-        short = c.qual.split(':')[1]
+        short = c.qual.split(':', 1)[1]
         # declared parameter types are part of the precondition
         for p, ty in c.types.items():
             if p in env:
